@@ -52,6 +52,14 @@ def check_functions(chk, prog, fnames, kinds, rule_prefix=""):
                 retkey = dom.key_of(kids(n)[0])
             retstat = s.get(retkey) if retkey else None
             where = loc_str(n)
+            ops = ERR.out_param_state(prog, dom, s)
+            if failed and ops != "n/a":
+                # the function reports failure through its out-parameter: on a failed path it must hold the failure value
+                ok = ops in (ERR.FAILED, "mixed") or isinstance(ops, ERR.U)
+                chk.require(bool(ok), rule_prefix + "RET", "%sRET/%s/%s@%s" % (rule_prefix, fname, failed[0], where), where,
+                            "a path on which %s() (%s) failed leaves the failure value in the out-parameter" % failed,
+                            "out-parameter state at this return: %s" % ops)
+                continue
             if failed:
                 ok = (isf is True) or (isf is None and retkey and (retstat in (ERR.FAILED, "mixed") or isinstance(retstat, ERR.U)))
                 chk.require(bool(ok), rule_prefix + "RET", "%sRET/%s/%s@%s" % (rule_prefix, fname, failed[0], where), where,
